@@ -34,6 +34,10 @@ impl FileAndPathHelper for Helper {
                 self.symbol_directory.join(debug_name).join(debug_id.breakpad().to_string()).join(format!("{}.sym", debug_name.trim_end_matches(".pdb"))),
             )));
         }
+        if let Some(debug_id) = library_info.debug_id {
+            // several fixtures share a file name ("main"): <name>-<breakpad id> comes before the plain name
+            paths.push(CandidatePathInfo::SingleFile(FileLocationType(self.symbol_directory.join(format!("{debug_name}-{}", debug_id.breakpad())))));
+        }
         paths.push(CandidatePathInfo::SingleFile(FileLocationType(self.symbol_directory.join(debug_name))));
         Ok(paths)
     }
